@@ -86,13 +86,15 @@ prop("C04", quick={"runs": 8000}, thorough={"runs": 100000000, "budget_s": 600},
             "C04.R4 last-build-lost (every successful build's value was stored under the Get's key)",
             "C04.R5 old-backend-error-served (the error of a rejected backend call never answers a Get invoked after it with nothing in flight for the key)",
             "C04.R6 bounded liveness in simulated time: a waiting Get returns within 0.5 simulated seconds of the return of everything invoked before it started waiting, "
-            "not after a later owner's builder that sleeps for seconds"],
-     probes=["key_overwritten_while_background_build_pending", "ctx_cancelled_with_background_build", "background_build",
+            "not after a later owner's builder that sleeps for seconds",
+            "C04.R7 completed-build-rolled-back: at quiescence the last successful store of a key does not carry an older origin (build exit, or 'cached before any build') than an earlier store; "
+            "the signature names the mechanism (who stored the older value, what it had read, SyncRead) - one mechanism is an open known finding"],
+     probes=["last_store_judged", "key_overwritten_while_background_build_pending", "ctx_cancelled_with_background_build", "background_build",
              "get_invoked_during_build", "backend_error_reached_a_get", "waiter_liveness_checked"])
 prop("C05", quick={"runs": 8000}, thorough={"runs": 100000000, "budget_s": 600},
      rule=FO_RULE + "Even runs: SyncRead bursts of 2-8 clients on one missing/expired key; odd runs: sequences of Gets with failing "
-     "builders and clock jumps around FailedUpdateTTL. Non-trivial: overlapping Gets on one key.",
-     rules=["C05.R1 exactly one build per SyncRead burst", "C05.R3 no builder entry / cached error served inside (t, t+0.95*FailedUpdateTTL)",
+     "builders and clock jumps around FailedUpdateTTL, 30 % of those Gets under a caller context TTL of 1ms .. 24h (the value's TTL, it must not govern the failure cache). Non-trivial: overlapping Gets on one key.",
+     rules=["C05.R1 exactly one build per SyncRead burst", "C05.R3 no builder entry / cached error served inside (t, t+0.95*FailedUpdateTTL); a cached failure no longer answers 1.06*FailedUpdateTTL after the last failed build",
             "C05.R4 FailedUpdateTTL=-1 does not cache failures"],
      probes=["syncread_burst_single_build", "get_inside_failure_window", "get_after_uncached_failure"])
 prop("C06", quick={"runs": 8000}, thorough={"runs": 100000000, "budget_s": 600},
@@ -116,12 +118,12 @@ prop("C07", quick={"runs": 16000}, thorough={"runs": 100000000, "budget_s": 600}
             "C07.retained an ErrExpired handed out earlier still carries the value it was created for at the end of the run"],
      probes=["read:nil", "read:notfound", "read:expired", "delete:nil", "delete:notfound", "expireAll", "deleteAll", "walk", "walkErr", "walkDel", "dumpErr", "len", "load", "store"])
 prop("C10", quick={"runs": 16000}, thorough={"runs": 100000000, "budget_s": 600},
-     rule=BE_RULE + "Root-driven (no concurrency): 1-6 writes (Write, or Store which has no context) with config TTL {default, unlimited, 1ns..10y, negative -2ns..-1y}, context TTL {none, 0, +-1ns..+-10y}, "
+     rule=BE_RULE + "Root-driven (no concurrency): 1-6 writes (Write, or Store which has no context) with config TTL {default, unlimited, 1ns..10y, negative -2ns..-1y}, context TTL {none, 0, +-1ns..+-10y}, in 8 % each 'forever' TTLs (250y, 280y, MaxInt64/2, MaxInt64, both signs) whose expiry is beyond the last unix-nanosecond instant, "
      "ExpirationJitter {disabled, default, values in (0,1], 1.5, 2}, jitter draw {0, 0.5, 1-2^-53, PRNG}; after each write Walk gives ExpireAt, the clock "
      "is moved to ExpireAt-1ns and ExpireAt+1ns. Non-trivial: at least one write; distinct = distinct scenarios.",
      rules=["C10.R1 ExpireAt within [t+T-|T|J/2, t+T+|T|J/2] (exactly t+T without jitter)", "C10.R2 never expires with UnlimitedTTL and no context TTL",
-            "C10.R3 fresh 1ns before, ErrExpired 1ns after the reported instant", "C10.R4 ErrExpired.ExpiredAt == Walk's ExpireAt"],
-     probes=["never_expiring_write", "jitter_disabled_write", "jittered_write", "flip_probed", "born_expired"])
+            "C10.R3 fresh 1ns before, ErrExpired 1ns after the reported instant (window not representable: reported expiry not before the window, entry served now and 20 years on)", "C10.R4 ErrExpired.ExpiredAt == Walk's ExpireAt"],
+     probes=["never_expiring_write", "jitter_disabled_write", "jittered_write", "flip_probed", "born_expired", "expiry_beyond_representable_time"])
 prop("C11", quick={"runs": 30000}, thorough={"runs": 100000000, "budget_s": 600},
      rule=BE_RULE + "Root-driven writes (never-expiring, fresh, recently expired, long expired) and clock jumps; the real janitor goroutine runs as a "
      "scheduled task whenever the simulated clock crosses DeleteExpiredJobInterval; after every jump that contained a cycle the surviving key set is "
@@ -171,7 +173,7 @@ prop("C13", quick={"runs": 6000}, thorough={"runs": 100000000, "budget_s": 600},
 prop("C14", quick={"runs": 6000}, thorough={"runs": 100000000, "budget_s": 600},
      rule=TR_RULE + "Exporter and importer HTTPTransfer instances with 0-4 named caches each (partly overlapping names, in 30 % names that need URL escaping; loggers of every shape in 40 %); Import runs against Export() through an "
      "in-process http.RoundTripper; a third of the runs inject round-trip errors, 5xx, truncated / failing bodies, a rewritten typesHash, or a slow link (4 simulated seconds per read of the body: nothing may be lost). Every 50th run is the "
-     "auxiliary (non-simulation) hash clause: 4 fresh OS processes register permutations / multiplicities of a type pool (struct, pointer-registered, slice, map, basic kinds, "
+     "auxiliary (non-simulation) hash clause: 4 fresh OS processes register permutations / multiplicities (in 35 % one of them after other registrations and a GobTypesHashReset) of a type pool (struct, pointer-registered, slice, map, basic kinds, "
      "two same-named types of different packages) and print GobTypesHash(); every 1000th run a fresh process with types hash 0 on both sides transfers builtin-valued caches.",
      rules=["C14.R1 imported caches equal the exporter's of the same name; every cache is requested", "C14.R2 exporter unchanged", "C14.R3 nothing imported on hash mismatch / unknown name / non-200",
             "C14.R4 body faults: subset of intact entries, Import returns nil", "C14.H1/H2 (auxiliary) hash independent of order and multiplicity, changes when a type is added", "C14.H3 (auxiliary) equal hashes of 0 are equal hashes: everything is imported"],
@@ -181,13 +183,14 @@ prop("C15", quick={"runs": 9000}, thorough={"runs": 100000000, "budget_s": 600},
      "(several labels per key, shared keys, repeated labelling, unused labels, labelled-but-absent keys, duplicated label arguments). A third of the runs are "
      "fault-free sequences; a third come in families of 12 sharing one structure while the failing Delete ordinal sweeps 0..11 (every delete position), each "
      "followed by a fault-free retry (the same labels in one call, or one call per label); a third run AddLabels / AddCache / InvalidateByLabels / writes concurrently; every 12th run injects the failure while "
-     "other tasks AddLabels concurrently and ends with a fault-free sweep over all labels.",
-     rules=["C15.R1 labelled keys absent after nil", "C15.R2 unlabelled keys untouched", "C15.R3 count = entries really removed", "C15.R4 failure returned, no panic", "C15.R5 retry removes every labelled key"],
+     "other tasks AddLabels concurrently and ends with a fault-free sweep over all labels; every 12th run lets 2-3 clients invalidate the same labels at once with one failing Delete. In 20 % the constructor's "
+     "argument is a slice with spare capacity that the caller keeps appending caches of its own to.",
+     rules=["C15.R1 labelled keys absent after nil", "C15.R2 unlabelled keys untouched, no Delete on a cache that was never registered", "C15.R3 count = entries really removed", "C15.R4 failure returned, no panic", "C15.R5 retry removes every labelled key"],
      probes=["invalidate_ok", "invalidate_with_deleter_failure", "retry_after_failure", "retry_label_by_label", "concurrent_invalidate", "sweep_after_concurrent_failure", "sweep_judged_rewritten_and_relabelled_key"])
 prop("C17", quick={"runs": 12000}, thorough={"runs": 100000000, "budget_s": 600},
-     rule="1-8 client tasks call Invalidate 1-4 times each (SkipInterval from the 15 s default and 1 ns up to 100 years and MaxInt64) with sleeps around SkipInterval (-1ns, exactly, +1ns) and a context that is live, already cancelled, past its deadline, or cancelled by the first callback; 0-5 callbacks yield / sleep simulated time while the "
-     "Invalidator's mutex is held (cooperative lock table). Non-trivial: at least two calls; distinct = distinct (scenario, schedule signature).",
-     rules=["C17.R1 accepted calls never overlap", "C17.R2 consecutive accepted calls start running callbacks >= SkipInterval apart", "C17.R3 every callback exactly once in order, synchronously",
+     rule="1-8 client tasks call Invalidate 1-4 times each (SkipInterval from the 15 s default and 1 ns up to 100 years and MaxInt64) with sleeps around SkipInterval (-1ns, exactly, +1ns) and a context that is live, already cancelled, past its deadline, or cancelled by the first callback; 0-5 callbacks (none: nil or an empty slice) yield / sleep simulated time while the "
+     "Invalidator's mutex is held (cooperative lock table); in 20 % a registrar task appends 1-2 callbacks at run time under the Invalidator's own mutex. Non-trivial: at least two calls; distinct = distinct (scenario, schedule signature).",
+     rules=["C17.R1 accepted calls never overlap", "C17.R2 consecutive accepted calls start running callbacks >= SkipInterval apart", "C17.R3 every callback registered when the call was invoked (at most those registered when it returned) exactly once in order, synchronously",
             "C17.R4 rejected: no callback, ErrAlreadyInvalidated", "C17.R5 no callbacks: ErrNothingToInvalidate",
             "C17.R6 a rejection has a reason: an accepted call started at most SkipInterval before the rejected one was invoked"],
      probes=["rejected_call", "two_accepted_calls", "overlapping_invalidate_calls"])
@@ -195,7 +198,7 @@ prop("C16", quick={"runs": 12000}, thorough={"runs": 100000000, "budget_s": 900}
      rule="Programs: every unordered pair of backend operations (write, born-expired write, read, delete, ExpireAll, DeleteAll, Len, Walk, Load, Store, "
      "Dump, Restore, a sleep that lets a janitor cleanup/eviction cycle run) on a shared key, on the three backends and the three eviction strategies, "
      "two schedules each (first 2106 runs); then random concurrent workloads of the other engines (backend mixes with janitor, Failover Gets, "
-     "InvalidationIndex AddLabels/AddCache/InvalidateByLabels, Invalidator). The instrumented library reports every struct-field, slice-element and map access (incl. what encoding/gob reads in Dump) and "
+     "InvalidationIndex AddLabels/AddCache/InvalidateByLabels, Invalidator). Failover clients partly work under request contexts of their own whose builders report TTLs; harness loggers render the structs they are given pointers to. The instrumented library reports every struct-field, slice-element, scalar-cell (*p) and map access (incl. what encoding/gob reads in Dump) and "
      "every synchronisation event to a vector-clock detector; harness hand-offs create no happens-before edge. Non-trivial: >= 2 client tasks; "
      "distinct = distinct (scenario, schedule signature).",
      rules=["C16.R1 unordered conflicting accesses to a struct field or slice element (incl. atomic vs plain access)", "C16.R2 unordered conflicting operations on a Go map (runtime may throw 'concurrent map read and map write')"],
